@@ -25,7 +25,7 @@ def make_cases(ctx, first):
         if small:
             # requests that open and close a session within one handler (monolithic POST, mount, manifest PUT)
             # race with the asynchronously started count prune: keep them out of the histories with a small limit
-            prof = dict(PROFILE, mono=0, mount=0, image=0, index=0, artifact=0)
+            prof = dict(PROFILE, mono=0, mount=0, image=0, index=0, artifact=0, retag=0)
         w = gen.World(rng, conf, profile=prof)
         target = steps
         while len(w.steps) < target:
@@ -53,7 +53,84 @@ def make_cases(ctx, first):
     return cases
 
 
+def timer_cases(ctx, first):
+    """expiry by the real timer: a session opened after the repository's session set was drained (by a completion, a
+    cancellation, an expiry) or alongside other sessions is gone once the grace period has passed, with its temporary file"""
+    rng = ctx.rng
+    n = 16 if ctx.tier == "quick" else 300
+    cases = []
+    for i in range(n):
+        store = ("dir", "mem")[i % 2]
+        grace = rng.choice([150, 200, 300])
+        conf = mkconf(store=store, grace_ms=grace)
+        steps, watched = [], []
+        repo = rng.choice(["a", "a/b"])
+        for rnd in range(rng.randrange(1, 4)):
+            how = rng.choice(["cancel", "complete", "mono", "expire", "none", "cancel", "complete"])
+            data = b"drain-%d-%d" % (i, rnd)
+            if how == "cancel":
+                steps.append(upload_post(repo))
+                steps.append(upload_delete(repo, "$SID%d$" % (len(steps) - 1)))
+            elif how == "complete":
+                steps.append(upload_post(repo))
+                steps.append(upload_put(repo, "$SID%d$" % (len(steps) - 1), None, dg("sha256", data), state_token(0), data))
+            elif how == "mono":
+                steps.append(upload_post(repo, digest=dg("sha256", data), body=data))
+            elif how == "expire":
+                steps.append(upload_post(repo))
+                steps.append(special("sleep", secs=grace * 4 / 1000.0))
+            # the session under watch: opened now, possibly written to, then abandoned
+            steps.append(upload_post(repo))
+            k = len(steps) - 1
+            if rng.random() < 0.6:
+                steps.append(upload_patch(repo, "$SID%d$" % k, None, state_token(0), b"abandoned"))
+            watched.append(k)
+            if rng.random() < 0.5:
+                steps.append(special("sleep", secs=grace * 4 / 1000.0))
+                steps.append(dict(upload_get(repo, "$SID%d$" % k), expired=k))
+        steps.append(special("sleep", secs=grace * 5 / 1000.0))
+        for k in watched:
+            steps.append(dict(upload_get(repo, "$SID%d$" % k), expired=k))
+        if store == "dir":
+            steps.append(dict(special("snapshot"), final=True))
+        for st in steps:
+            st["model"] = "(skip)"
+        cases.append(dict(id=first + i, conf=conf, steps=steps, grace=grace))
+    return cases
+
+
+def timer_check(ctx):
+    cases = timer_cases(ctx, 900000)
+    iouts = run_api(ctx, api_binary(ctx), cases, name="timer", workers=16)
+    nbad = 0
+    for c in cases:
+        io = iouts[c["id"]]
+        for k, (st, r) in enumerate(zip(c["steps"], io["steps"])):
+            if "expired" in st and (r.get("status") is None or 200 <= r.get("status") < 300):
+                ctx.violation("an abandoned upload session still answers %s more than %d ms after its last use with a grace period of %d ms: it never expires"
+                              % (r.get("status"), 4 * c["grace"], c["grace"]), oracles.hist(c, k, r), "C08:never-expires")
+                nbad += 1
+                break
+            if st.get("final"):
+                left = [f["path"] for f in r.get("files") or [] if "/_uploads/" in f["path"] and not f.get("dir")]
+                if left:
+                    ctx.violation("temporary upload file(s) %s remain after every session has expired" % left[:3], oracles.hist(c, k, None), "C08:expired-file-left")
+                    nbad += 1
+    return len(cases), nbad
+
+
 def run(ctx):
-    apicheck.run(ctx, "C08", make_cases, oracles.c08,
-                 assumptions=["expiry and eviction are driven through synchronous hooks of the real prune routines (cache.pruneAge / pruneCount); that the runtime fires the timer / schedules the spawned goroutine is not modelled",
+    res = {}
+
+    def extra(cases, iouts):
+        res["timer"] = timer_check(ctx)
+
+    run_main(ctx, extra)
+    if res:
+        ctx.coverage["real_timer_expiry_cases"], ctx.coverage["real_timer_expiry_failures"] = res["timer"]
+
+
+def run_main(ctx, extra):
+    apicheck.run(ctx, "C08", make_cases, oracles.c08, extra=extra,
+                 assumptions=["in the differential histories expiry and eviction are driven through synchronous hooks of the real prune routines (cache.pruneAge / pruneCount); expiry by the real timer is exercised by separate wall-clock scenarios (grace periods of 150-300 ms, judged after 4-5 grace periods)",
                               "a request body is delivered whole: a client aborting mid-body is not modelled"])
